@@ -505,6 +505,9 @@ class BGP(protocol.Protocol):
         if len(msg) >= 10:
             # a shorter body is a message header error, not an OPEN
             self.msg_recv_stat['Opens'] += 1
+        if self.fsm.state == bgp_cons.ST_OPENCONFIRM:
+            # no connection collision is possible, a second OPEN is ignored
+            return
         open_msg = Open()
         parse_result = open_msg.parse(msg)
         if self.fsm.bgp_peering.peer_asn != open_msg.asn:
